@@ -195,7 +195,9 @@ class FileCtx:
         n0_ = len(self.unit.entries)
         n_ = self._guard_rest(why, skip)
         for g_ in self.unit.entries[n0_:]:
-            if isinstance(g_, Guard):
+            # a NEW method in an `impl Trait for Type` block silently changes dispatch (e.g. an override of a default method); a new
+            # inherent / free function only matters once something calls it -- and then that caller's text changed
+            if isinstance(g_, Guard) and g_.impl and re.search(r'\\? for\b|\bfor\\? ', g_.impl):
                 g_.from_rest = True
         return n_
 
